@@ -717,13 +717,32 @@ impl State<'_> {
             [Atom::Id(name)] if name != "defined" => {
                 let mut out = Vec::new();
                 self.expand(rest, &mut Vec::new(), &mut out)?;
-                match out.as_slice() {
+                if out.iter().any(|t| matches!(&t.atom, Atom::Id(d) if d == "defined")) {
+                    // C: "if the token defined is generated as a result of this replacement
+                    // process, the behavior is undefined"
+                    return Err(Stop::Unmodelled("defined produced by macro replacement".into()));
+                }
+                // strip balanced outer parentheses: ( ( 8 ) ) is 8
+                let mut inner: &[Tok] = &out;
+                while inner.len() >= 3
+                    && inner[0].atom == Atom::Punct('(')
+                    && inner[inner.len() - 1].atom == Atom::Punct(')')
+                    && !inner[1..inner.len() - 1]
+                        .iter()
+                        .any(|t| matches!(t.atom, Atom::Punct('(') | Atom::Punct(')')))
+                {
+                    inner = &inner[1..inner.len() - 1];
+                }
+                match inner {
+                    [] => Ok(None),
                     [t] => match &t.atom {
                         Atom::Int(n) => Ok(Some(*n != 0)),
                         Atom::Id(_) => Ok(Some(false)),
                         Atom::Punct(_) => Ok(None),
                     },
-                    _ => Ok(None),
+                    // two operands without an operator between them can not be a condition
+                    [a, b] if !matches!(a.atom, Atom::Punct(_)) && !matches!(b.atom, Atom::Punct(_)) => Ok(None),
+                    _ => Err(Stop::Unmodelled("#if condition expands to an expression".into())),
                 }
             }
             _ => Err(Stop::Unmodelled("#if condition outside the subset".into())),
